@@ -155,7 +155,7 @@ func (C03) Execute(sc *drv.Scenario, w *drv.World) (*drv.Violation, error) {
 					return nil, err
 				}
 			}
-			before, err := TakeSnapshot(w, SnapOpts{})
+			before, err := TakeSnapshot(w, SnapOpts{BranchHeads: true})
 			if err != nil {
 				return nil, err
 			}
@@ -166,7 +166,7 @@ func (C03) Execute(sc *drv.Scenario, w *drv.World) (*drv.Violation, error) {
 			if _, err := w.Restart(op.Mode); err != nil {
 				return nil, err
 			}
-			after, err := TakeSnapshot(w, SnapOpts{})
+			after, err := TakeSnapshot(w, SnapOpts{BranchHeads: true})
 			if err != nil {
 				return nil, err
 			}
